@@ -11,7 +11,16 @@ GO=/opt/veriftools/go1.26.8/bin/go
 REPO=${VERIF_REPO:-/repo}
 OV=/var/tmp/verif-overlay
 mkdir -p "$B" "$OV" || exit 2
-python3 /verif/sim/rtoverlay/gen.py /opt/veriftools/go1.26.8 "$OV" >/dev/null || { echo "BUILD-ERROR: runtime overlay generation failed" >&2; exit 2; }
+# generate into a private directory, then move changed files into place
+# atomically: several checks may be building at the same time
+OVT="$OV.tmp.$$"
+python3 /verif/sim/rtoverlay/gen.py /opt/veriftools/go1.26.8 "$OVT" >/dev/null || { rm -rf "$OVT"; echo "BUILD-ERROR: runtime overlay generation failed" >&2; exit 2; }
+sed -i "s|$OVT|$OV|g" "$OVT/overlay.json"
+for f in "$OVT"/*; do
+  b=$(basename "$f")
+  cmp -s "$f" "$OV/$b" 2>/dev/null || mv -f "$f" "$OV/$b"
+done
+rm -rf "$OVT"
 rm -rf "$B/sim" && mkdir -p "$B/sim" || exit 2
 (cd /verif/sim && tar cf - --exclude=goplugin --exclude='*.test' .) | (cd "$B/sim" && tar xf -) || exit 2
 # go.mod mirrors the repository's own requirements (same dependency versions)
